@@ -96,11 +96,12 @@ C11Seg(S, q) ==
         allTwo == Len(q) >= 2 /\ \A k \in 1..Len(emitted) : emitted[k].n >= 2
         constant == cadence >= 0
     IN
-         (IF \E i \in 1..n : ExpDurF(q, i) # None /\ ("d" \notin DOMAIN S.s[i] \/ S.s[i].d # ExpDurF(q, i))
+         (IF \E i \in 1..n : ExpDurF(q, i) # None /\ ExpDurF(q, i) <= fcfg.w32 /\ ("d" \notin DOMAIN S.s[i] \/ S.s[i].d # ExpDurF(q, i))
           THEN {FSig("C11", "InSegmentTiming", "trun", "duration")} ELSE {})
-    \cup (IF \E i \in 1..n : "dr" \in DOMAIN S.s[i] /\ S.s[i].dr # 0 THEN {FSig("C11", "InSegmentTiming", "trun", "duration-off-grid")} ELSE {})
-    \cup (IF \E i \in 1..n : "c" \notin DOMAIN S.s[i] \/ S.s[i].c # q[i].pts - q[i].dts
-                              \/ ("cr" \in DOMAIN S.s[i] /\ S.s[i].cr # 0)
+    \cup (IF \E i \in 1..n : ExpDurF(q, i) # None /\ ExpDurF(q, i) <= fcfg.w32 /\ "dr" \in DOMAIN S.s[i] /\ S.s[i].dr # 0 THEN {FSig("C11", "InSegmentTiming", "trun", "duration-off-grid")} ELSE {})
+    \cup (IF \E i \in 1..n : (q[i].pts - q[i].dts <= fcfg.i32 /\ q[i].dts - q[i].pts <= (IF "i32n" \in DOMAIN fcfg THEN fcfg.i32n ELSE fcfg.i32))
+                              /\ ("c" \notin DOMAIN S.s[i] \/ S.s[i].c # q[i].pts - q[i].dts
+                                  \/ ("cr" \in DOMAIN S.s[i] /\ S.s[i].cr # 0))
           THEN {FSig("C11", "InSegmentTiming", "trun", "composition-offset")} ELSE {})
     \cup (IF \E i \in 1..n : "nonsync" \notin DOMAIN S.s[i] \/ S.s[i].nonsync # ~q[i].sync
           THEN {FSig("C11", "InSegmentTiming", "trun", "sync-flag")} ELSE {})
@@ -111,4 +112,12 @@ C11Seg(S, q) ==
              /\ S.tfdt - q[1].dts # emitted[1].base - emitted[1].first
           THEN {FSig("C11", "ConstantCadence", "tfdt", "offset-varies")} ELSE {})
 
+(* ---- C16 on a segment: trun durations and composition offsets are 32-bit ---- *)
+C16Seg(S, q) ==
+    LET n == IF Len(q) < Len(S.s) THEN Len(q) ELSE Len(S.s)
+        i32n == IF "i32n" \in DOMAIN fcfg THEN fcfg.i32n ELSE fcfg.i32 IN
+         (IF \E i \in 1..n : ExpDurF(q, i) # None /\ ExpDurF(q, i) > fcfg.w32
+          THEN {FSig("C16", "FieldsFit", "trun", "sample-duration-exceeds-32-bit-field")} ELSE {})
+    \cup (IF \E i \in 1..n : q[i].pts - q[i].dts > fcfg.i32 \/ q[i].dts - q[i].pts > i32n
+          THEN {FSig("C16", "FieldsFit", "trun", "composition-offset-exceeds-32-bit-field")} ELSE {})
 =============================================================================
